@@ -112,6 +112,12 @@ func run6(r *ev.Run, args []string) {
 		{"unknown-type-500", append([]byte{0, 0xff}, bytes.Repeat([]byte{0x11}, 498)...)},
 		{"own-padded-to-131", append(append([]byte{}, own...), make([]byte, 131-len(own))...)},
 		{"own-padded-to-300", append(append([]byte{}, own...), make([]byte, 300-len(own))...)},
+		// the own identifier with a single field changed: the time of a DUID-LLT (octets 4-7), the
+		// hardware type, the last bit of the link-layer address
+		{"own-one-bit-in-octet-7", flip(own, 7, 1)},
+		{"own-one-bit-in-octet-4", flip(own, 4, 0x80)},
+		{"own-hardware-type-changed", flip(own, 3, 0x07)},
+		{"own-last-address-bit", flip(own, len(own)-1, 1)},
 	}
 	maxDepth := 1
 	if reg.Tier == "thorough" {
@@ -190,6 +196,15 @@ func irrelevant6(r *ev.Run, h handler.Handler6, args []string, own []byte) {
 			}
 		}
 	}
+}
+
+// flip returns a copy of b with mask XOR-ed into octet i.
+func flip(b []byte, i int, mask byte) []byte {
+	c := append([]byte{}, b...)
+	if i >= 0 && i < len(c) {
+		c[i] ^= mask
+	}
+	return c
 }
 
 func tn(t byte) string {
